@@ -3,6 +3,7 @@ package main
 // C13 — everything the generators emit builds: Go compiles and vets, TypeScript loads.
 
 import (
+	"go/parser"
 	"fmt"
 	"go/ast"
 	"go/token"
@@ -451,6 +452,113 @@ func checkC13(c *Ctx) {
 
 	// ---------------- R13b shape worlds
 	checkShapeWorlds(c, "R13b")
+	clientQueryWorlds(c, "R13b")
+}
+
+// clientQueryWorlds — R13b for the Go client's URL builder. (sebuf.http.query) is accepted on a field of any kind and
+// cardinality (annotations.GetQueryParams has no filter), so for every field shape the statements the client emits for one
+// query parameter — the emitter is interpreted on a concrete QueryParam whose FieldKind is the shape's kind name — are
+// type-checked against a request struct whose field has the Go type protoc-gen-go gives that shape.
+func clientQueryWorlds(c *Ctx, rule string) {
+	r := c.R
+	fn := c.P.Func(pkgClient, "Generator.generateQueryParamEncoding")
+	if fn == nil {
+		r.Unres(rule, "clientgen query parameter emitter", "", "generateQueryParamEncoding not found")
+		return
+	}
+	pos := c.P.Pos(c.P.Decls[fn].Pos())
+	type agg struct {
+		kinds map[string]bool
+		msg   string
+		text  string
+	}
+	bad := map[string]*agg{}
+	okKinds := map[string][]string{}
+	prevConcrete := c.W.Concrete
+	c.W.Concrete = true
+	defer func() { c.W.Concrete = prevConcrete }()
+	for _, s := range AllShapes() {
+		if s.Card == "map" || s.Pres == "oneof" {
+			continue // no Go field of the parameter's own type (maps of a kind are not a query shape; oneof members have no direct field)
+		}
+		kindName := s.descKind()
+		cf := fld("zq_field", kindName)
+		cf.List = s.Card == "list"
+		cf.Opt = s.Pres == "optional"
+		if kindName == "message" {
+			cf.Msg = cMessage("ShapeMsg")
+		}
+		qp := cstruct("QueryParam", map[string]Val{
+			"FieldName": constStr("zq_field"), "FieldGoName": constStr("ZqField"), "FieldJSONName": constStr("zqField"),
+			"ParamName": constStr("zq"), "Required": VBool{B: false}, "FieldKind": constStr(kindName), "Field": cf.val(),
+		})
+		run := c.W.NewRun(map[string]int{}, false)
+		run.InlineAll, run.FollowSlices = true, true
+		run.CallHook = c.cdescHook
+		run.StartArgs(fn, map[string]Val{"qp": qp})
+		class := s.Card
+		if s.Card == "singular" {
+			class = s.Pres
+		}
+		if run.Aborted != "" || len(run.Used) > 0 || len(run.Units) == 0 {
+			r.Undec(rule, fmt.Sprintf("clientgen query parameter on %s", s), pos, fmt.Sprintf("emitter not decidable on a concrete parameter: aborted %q, open decisions %v, units %d", run.Aborted, usedKeys(run), len(run.Units)))
+			continue
+		}
+		var body strings.Builder
+		holes := false
+		for _, u := range run.Units {
+			for _, l := range u.Lines {
+				t := lineText(l.Segs)
+				for _, sg := range l.Segs {
+					if sg.Hole != nil {
+						holes = true
+					}
+				}
+				body.WriteString("\t" + t + "\n")
+			}
+		}
+		if holes {
+			r.Undec(rule, fmt.Sprintf("clientgen query parameter on %s", s), pos, "the emitted statements still contain symbolic parts: "+holeFree(body.String()))
+			continue
+		}
+		goType, _ := s.GoType("ShapeMsg", "ShapeEnum")
+		src := "package w\n\nimport (\n\t\"fmt\"\n\t\"net/url\"\n\ttimestamppb \"google.golang.org/protobuf/types/known/timestamppb\"\n)\n\nvar _ = timestamppb.Now\nvar _ = fmt.Sprint\n\ntype ShapeMsg struct{}\ntype ShapeEnum int32\n\ntype Req struct{ ZqField " + goType + " }\n\nfunc build(req *Req, queryParams url.Values) {\n" + body.String() + "}\n"
+		fset := token.NewFileSet()
+		f, err := parser.ParseFile(fset, "w.go", src, 0)
+		if err != nil {
+			r.Bad(rule, fmt.Sprintf("clientgen query parameter on %s: emitted statements parse", class), pos, "the statements emitted for one query parameter do not parse: "+err.Error(), nil)
+			continue
+		}
+		imp, ierr := c.newImporter(fset)
+		if ierr != nil {
+			r.Unres(rule, "clientgen query worlds importer", "", ierr.Error())
+			return
+		}
+		var errs []string
+		conf := types.Config{Importer: imp, Error: func(e error) {
+			if te, ok := e.(types.Error); ok {
+				errs = append(errs, te.Msg)
+			}
+		}}
+		conf.Check("w", fset, []*ast.File{f}, nil)
+		if len(errs) == 0 {
+			okKinds[class] = append(okKinds[class], s.Kind)
+			continue
+		}
+		k := fmt.Sprintf("clientgen query parameter on %s: %s", class, classifyTypeError(errs[0]))
+		if bad[k] == nil {
+			bad[k] = &agg{kinds: map[string]bool{}, msg: errs[0], text: strings.TrimSpace(strings.SplitN(body.String(), "\n", 2)[0])}
+		}
+		bad[k].kinds[s.Kind] = true
+	}
+	for _, class := range sortedKeys(okKinds) {
+		r.OKd(rule, fmt.Sprintf("clientgen query parameter on %s {%s} type-checks", class, strings.Join(dedupeSorted(okKinds[class]), ",")), pos, nil)
+	}
+	for _, k := range sortedKeys(bad) {
+		a := bad[k]
+		r.Bad(rule, k+" {"+strings.Join(sortedKeys(a.kinds), ",")+"}", pos,
+			fmt.Sprintf("(sebuf.http.query) is accepted on a field of this shape by every plugin, but the Go client's URL builder emitted for it does not compile: %s  (emitted line: %s)", a.msg, a.text), nil)
+	}
 }
 
 // createdOnlyWithServices: in the plugin's generateFile the call that creates
